@@ -8,6 +8,7 @@ int:<n> | flt:<ext>   with <ext> ∈ nan inf -inf p/q.   Assignments `<var>=<val
   bounds <value> <value>                    validation.check_bounds((lower, upper))
   clip <assignments> | slack <assignments> | remk <assignments>
   acc <check|spend> <ceilEps> <ceilDelta> <n> <e1> <d1> … <assignments>     (ext tokens for the accountant state)
+  accnew <ceilEps value> <ceilDelta value> <e1 value> <d1 value> …       BudgetAccountant(eps, delta, spent_budget=[…])
   tool <ceilEps> <ceilDelta> <nobounds | <value> <value>> <assignments>
 Answers: ok | typeError | valueError | budgetError | overflowError   (acc spend: `<res> <len>`)
 -/
@@ -130,6 +131,16 @@ def step (_ : Unit) (ws : List String) : Unit × String :=
           | .ok a' => ((), s!"ok {a'.spent.length}")
           | .error e => ((), s!"{e.toString} {a.spent.length}")
       | _, _ => ((), "bad-op")
+    | _, _, _ => ((), "bad-op")
+  | "accnew" :: ce :: cd :: rest =>
+    match parseVal ce, parseVal cd, rest.mapM parseVal with
+    | some ce, some cd, some vs =>
+      let rec prs : List PyVal → List (PyVal × PyVal)
+        | a :: b :: r => (a, b) :: prs r
+        | _ => []
+      match AccV.new ce cd (prs vs) with
+      | .ok a => ((), s!"ok {a.spent.length}")
+      | .error e => ((), e.toString)
     | _, _, _ => ((), "bad-op")
   | "tool" :: ce :: cd :: "nobounds" :: rest =>
     match parseExt ce, parseExt cd, parseEnv rest with
